@@ -350,7 +350,12 @@ class Rd(ReadBase):
             return '-'
         small = sorted(p_ for n_, p_ in pool if os.path.getsize(p_) <= 6000)
         rng.shuffle(small)
-        for p_ in small[:(30 if tier == 'quick' else len(small))]:
+        if tier == 'quick':                    # stratified: up to five samples of every format family
+            per = {}
+            for p_ in small:
+                per.setdefault(only_of(p_), []).append(p_)
+            small = [p_ for f_ in sorted(per) for p_ in per[f_][:5]]
+        for p_ in small:
             size = os.path.getsize(p_)
             ops = ['load ' + p_]
             # every byte of the fixed header set to 255, small blocks so that the library's own
@@ -359,6 +364,14 @@ class Rd(ReadBase):
                 ops.append(f'run blk=7 src=cb cons=A trunc=- fault=- poke={off}:255 only={only_of(p_)}')
             for off in range(0, min(size, 32 if tier == 'quick' else 96)):     # large but below typical sanity caps
                 ops.append(f'run blk=7 src=cb cons=A trunc=- fault=- poke={off}:200 only={only_of(p_)}')
+            # length fields are consistent with one another up to small differences: slightly smaller/larger
+            # values (header size one short of the name it must hold, a count one over) pass the sanity
+            # caps that 200/255 run into
+            head = open(p_, 'rb').read(96)
+            for off in range(0, min(size, 40 if tier == 'quick' else 96)):
+                o_ = head[off]
+                for val in {max(0, o_ - 1), min(255, o_ + 1), max(0, o_ - rng.randrange(2, 17)), min(255, o_ + rng.randrange(2, 17))} - {o_}:
+                    ops.append(f'run blk=7 src=cb cons=A trunc=- fault=- poke={off}:{val} only={only_of(p_)}')
             for _ in range(12 if tier == 'quick' else 300):
                 off = rng.randrange(0, min(size, 120))
                 val = rng.choice([255, 200, 127, 128, 0, 1, 64])
